@@ -73,7 +73,7 @@ theorem walk_progress (e : Env) (he : Healthy e) (ns : List Nat) (nd : ns.Nodup)
           fun h => by simp only at h hz; omega, w.need, w.tasks⟩⟩
       by_cases hl : a = e.me
       · have hstep : nodeStep e c l a = ({ seen e c a with need := true }, { l with shortage := l.shortage - 1 }) := by
-          simp [nodeStep, seen, h0, hl]
+          simp [nodeStep, seen, h0, hl, dec32_of_ne_zero h0]
         rw [hstep]
         obtain ⟨G, K, w⟩ := ih ndas { seen e c a with need := true } { l with shortage := l.shortage - 1 }
           (tail _ none (Or.inl rfl))
